@@ -70,6 +70,39 @@ func (a *Analysis) NumClassify() *report.RuleResult {
 		test = func(e ast.Expr, neg bool) (string, bool) {
 			e = unparen(e)
 			switch x := e.(type) {
+			case *ast.CallExpr:
+				// the test moved into a helper of the package: func (lex *Lexer) isInt(…) bool { _, err := strconv.ParseInt(…); return err == nil }
+				if !neg {
+					if fd := m.anyDecl(x); fd != nil && fd.Body != nil {
+						bits, returnsErrNil := "", false
+						ast.Inspect(fd.Body, func(n ast.Node) bool {
+							switch y := n.(type) {
+							case *ast.AssignStmt:
+								if len(y.Lhs) == 2 && len(y.Rhs) == 1 {
+									if id, ok := y.Lhs[1].(*ast.Ident); ok {
+										if d, ok := errDefs[info.ObjectOf(id)]; ok {
+											bits = d.bits
+										}
+									}
+								}
+							case *ast.ReturnStmt:
+								if len(y.Results) == 1 {
+									if be, ok := unparen(y.Results[0]).(*ast.BinaryExpr); ok && be.Op == token.EQL {
+										if id, ok := unparen(be.X).(*ast.Ident); ok && info.Types[be.Y].IsNil() {
+											if _, ok := errDefs[info.ObjectOf(id)]; ok {
+												returnsErrNil = true
+											}
+										}
+									}
+								}
+							}
+							return true
+						})
+						if returnsErrNil && bits != "" {
+							return bits, true
+						}
+					}
+				}
 			case *ast.UnaryExpr:
 				if x.Op == token.NOT {
 					return test(x.X, !neg)
